@@ -147,6 +147,6 @@ where
                 OpResult::Ok
             })
         }
-        OpKind::Offload { .. } | OpKind::ClockJump { .. } | OpKind::Restart { .. } | OpKind::RestartSweep { .. } | OpKind::Cancelled { .. } | OpKind::Damage(_) | OpKind::OverflowProbe { .. } | OpKind::CheckDumped | OpKind::CheckNow | OpKind::FlipSweep { .. } => Box::pin(async move { OpResult::Skipped }),
+        OpKind::Offload { .. } | OpKind::ClockJump { .. } | OpKind::Restart { .. } | OpKind::RestartSweep { .. } | OpKind::Cancelled { .. } | OpKind::Damage(_) | OpKind::OverflowProbe { .. } | OpKind::CheckDumped | OpKind::QuietTail | OpKind::CheckNow | OpKind::FlipSweep { .. } => Box::pin(async move { OpResult::Skipped }),
     }
 }
